@@ -14,34 +14,71 @@ Section TieGadgets.
   Proof. destruct (feqb_spec 1 0) as [E|E]; [|reflexivity]. exfalso. destruct Ffield as [_ H _ _]. exact (H E). Qed.
 
   (* the inversion inside isqrt is always defined: its argument is den, replaced by 1 when den = 0 *)
-  Theorem isqrt_gen_sat x ws y : fst (isqrt_gen zeta x ws y) = isqrt_sat zeta x ws y.
-  Proof.
-    unfold isqrt_gen, isqrt_sat. cbv zeta. cbn [fst snd].
-    destruct (feqb x 0) eqn:E; cbn [negb andb].
-    - rewrite tg_one_nz. reflexivity.
-    - rewrite E. reflexivity.
-  Qed.
-  Theorem isqrt_gen_out x ws y : snd (isqrt_gen zeta x ws y) = (ws, y).
-  Proof. reflexivity. Qed.
   (* constant input: the out-of-circuit square root, no constraint *)
   Theorem isqrt_gen_const_is x : isqrt_gen_const sr x = (true, sr 1 x).
   Proof. unfold isqrt_gen_const. destruct (sr 1 x). reflexivity. Qed.
 
+  (* The ties below hold up to ring equalities and the order of the constraints (see Tie/Curve.v): ring-equal arguments of
+     neg / isqrt_sat / feqb / inv are made syntactically equal, the sign tests are case-split, the satisfaction flags are compared
+     as conjunctions up to permutation, and the output values by `ring`. *)
+  Lemma feqb_sym x y : feqb x y = feqb y x.
+  Proof. destruct (feqb_spec x y) as [E|E], (feqb_spec y x) as [E'|E']; try reflexivity; exfalso; [apply E'|apply E]; symmetry; assumption. Qed.
+  Ltac unify1 f :=
+    repeat match goal with
+    | |- context [f ?a] =>
+        match goal with
+        | |- context [f ?b] => lazymatch a with b => fail | _ => replace a with b by ring end
+        end
+    end.
+  Ltac unify_isqrt :=
+    repeat match goal with
+    | |- context [isqrt_sat zeta ?a ?w ?v] =>
+        match goal with
+        | |- context [isqrt_sat zeta ?b w v] => lazymatch a with b => fail | _ => replace a with b by ring end
+        end
+    end.
+  Ltac unify_feqb :=
+    repeat match goal with
+    | |- context [feqb ?a ?c] =>
+        match goal with
+        | |- context [feqb ?b ?d] =>
+            lazymatch constr:((a, c)) with (b, d) => fail
+            | _ => first [ replace (feqb a c) with (feqb b d) by (f_equal; ring)
+                         | replace (feqb a c) with (feqb d b) by (rewrite (feqb_sym d b); f_equal; ring) ] end
+        end
+    end.
+  Ltac bool_perm := try reflexivity; apply eq_true_iff_eq; rewrite ?andb_true_iff; tauto.
+  Theorem isqrt_gen_sat x ws y : fst (isqrt_gen zeta x ws y) = isqrt_sat zeta x ws y.
+  Proof.
+    unfold isqrt_gen, isqrt_sat. cbv zeta. cbn [fst snd].
+    destruct (feqb x 0) eqn:E; destruct ws; cbn [negb andb orb implb]; rewrite ?tg_one_nz, ?E; cbn [negb andb orb implb];
+      unify1 inv; unify_feqb; bool_perm.
+  Qed.
+  Theorem isqrt_gen_out x ws y : snd (isqrt_gen zeta x ws y) = (ws, y).
+  Proof. reflexivity. Qed.
+  Ltac gtie :=
+    cbv zeta; rewrite ?isqrt_gen_sat, ?isqrt_gen_out; cbn [fst snd andb]; unfold gabs;
+    repeat (first
+      [ progress cbn [negb andb fst snd]
+      | progress unify_isqrt
+      | progress unify1 neg
+      | match goal with |- context [neg ?a] => destruct (neg a) end
+      | match goal with |- context [if ?b then _ else _] => is_var b; destruct b end
+      | match goal with |- context [Bool.eqb ?x ?y] => destruct (Bool.eqb x y) end
+      | progress unify1 inv
+      | progress unify_feqb ]);
+    repeat match goal with |- (_, _) = (_, _) => apply f_equal2 end;
+    first [ bool_perm | ring ].
+
   Theorem decode_gen_is s ws y :
     decode_gen cD zeta neg s ws y = let '(sat, gx, gy) := decode_g cD zeta neg s ws y in (sat, (gx, gy)).
-  Proof.
-    unfold decode_gen, decode_g. cbv zeta. rewrite !isqrt_gen_sat. cbn [fst snd andb]. reflexivity.
-  Qed.
+  Proof. unfold decode_gen, decode_g. gtie. Qed.
   Theorem encode_gen_is x y ws v :
     encode_gen cA cD zeta neg x y ws v = encode_g cA cD zeta neg x y ws v.
-  Proof.
-    unfold encode_gen, encode_g. cbv zeta. rewrite !isqrt_gen_sat. cbn [fst snd andb]. reflexivity.
-  Qed.
+  Proof. unfold encode_gen, encode_g. gtie. Qed.
   Theorem elligator_gen_is r0 ws y :
     elligator_gen cA cD zeta neg r0 ws y = let '(sat, gx, gy) := elligator_g cA cD zeta neg r0 ws y in (sat, (gx, gy)).
-  Proof.
-    unfold elligator_gen, elligator_g. cbv zeta. rewrite !isqrt_gen_sat. cbn [fst snd andb]. reflexivity.
-  Qed.
+  Proof. unfold elligator_gen, elligator_g. gtie. Qed.
 End TieGadgets.
 
 (* ---- the dependency: ark-r1cs-std AffineVar (twisted Edwards) addition and doubling, translated from the registry sources of the
